@@ -597,7 +597,7 @@ def p_rws(a, b, c, d):
 
 
 def p_from_pts(A6, pts):
-    """numeric validation (tolerance 1e-7) of the lstsq oracle: points in general position reproduce the map"""
+    """numeric validation (relative tolerance 1e-9 on the mapped points) of the lstsq oracle: points in general position reproduce the map"""
     from affine import Affine
     from odc.geo import xy_
     from odc.geo.math import affine_from_pts
@@ -605,7 +605,12 @@ def p_from_pts(A6, pts):
     X = [xy_(x, y) for x, y in pts]
     Y = [xy_(*(A * (x, y))) for x, y in pts]
     B = affine_from_pts(X, Y)
-    return _close(tuple(B)[:6], A6, 1e-7), f"affine_from_pts -> {tuple(B)[:6]}"
+    # judged on the mapping (control points and their centroid), not on the coefficients: with a large offset and a
+    # small extent the coefficients are ill-conditioned while the mapping is reproduced to ~1e-15 relative
+    cx, cy = sum(p[0] for p in pts) / len(pts), sum(p[1] for p in pts) / len(pts)
+    probe = list(pts) + [(cx, cy)]
+    ok = _close([B * p for p in probe], [A * p for p in probe], 1e-9)
+    return ok, f"affine_from_pts -> {tuple(B)[:6]}"
 
 
 def p_poly2d(coef, pts, A6):
@@ -630,10 +635,42 @@ def p_poly2d(coef, pts, A6):
     return ok, f"max fit error {float(np.abs(p(aa) - bb).max())!r}"
 
 
+def p_norm_xy(pts):
+    """norm_xy: finite result, centroid moved to 0, mean distance from it sqrt(2) (docstring), A maps pts to the output"""
+    import numpy as np
+    from odc.geo.math import norm_xy
+    aa = np.asarray(pts, dtype="float64")
+    XX, A = norm_xy(aa.copy())
+    ok = bool(np.isfinite(XX).all()) and all(math.isfinite(v) for v in tuple(A)[:6])
+    if ok:
+        ok = _close(XX.mean(axis=0), (0.0, 0.0), 1e-9) and _close(np.sqrt((XX ** 2).sum(axis=1)).mean(), math.sqrt(2), 1e-9)
+        ok = ok and _close(np.asarray([A * (x, y) for x, y in pts]), XX, 1e-9) and A.b == 0 and A.d == 0 and A.a == A.e
+    return ok, f"norm_xy -> A={tuple(A)[:6]} first rows={XX[:3].tolist()}"
+
+
+def gcp_layouts(rng):
+    """regular and symmetric control-point layouts (the natural GCP grids), many with a point exactly on the centroid"""
+    out = []
+    for gx, gy in [(2, 2), (3, 3), (4, 4), (5, 5), (6, 6), (7, 7), (3, 5), (5, 3), (2, 9), (9, 1 + 1), (3, 4), (1 + 2, 7)]:
+        sx, sy = rng.choice([1.0, 0.5, 30.0, 256.0, 1000.0]), rng.choice([1.0, 0.25, 30.0, 512.0])
+        ox, oy = rng.choice([0.0, 0.0, -17.0, 5e5, 1e6]), rng.choice([0.0, 3.0, -6e6, 4096.0])
+        out.append((f"grid{gx}x{gy}", tuple((ox + i * sx, oy + j * sy) for i in range(gx) for j in range(gy))))
+    r = rng.choice([1.0, 10.0, 250.0])
+    cx, cy = rng.choice([0.0, 100.0, -3e5]), rng.choice([0.0, -50.0, 7e5])
+    cross = [(cx, cy), (cx + r, cy), (cx - r, cy), (cx, cy + r), (cx, cy - r)]
+    out.append(("cross5", tuple(cross)))
+    out.append(("cross9", tuple(cross + [(cx + 2 * r, cy + r), (cx - 2 * r, cy - r), (cx - r, cy + 2 * r), (cx + r, cy - 2 * r)])))
+    ring = [(cx + r * math.cos(2 * math.pi * k / 8 + 0.3), cy + r * math.sin(2 * math.pi * k / 8 + 0.3)) for k in range(8)]
+    out.append(("ring8+centre", tuple(ring + [(sum(p[0] for p in ring) / 8, sum(p[1] for p in ring) / 8)])))
+    out.append(("triangle+centroid", ((cx, cy), (cx + 3 * r, cy), (cx, cy + 3 * r), (cx + r, cy + r))))
+    out.append(("triangle", ((cx, cy), (cx + 3 * r, cy), (cx, cy + 3 * r))))
+    return out
+
+
 PREDICATES = {"split": p_split, "near_int": p_near_int, "nonfinite": p_nonfinite, "snap_scale": p_snap_scale,
               "align": p_align, "pow2": p_pow2, "clamp": p_clamp, "snap_grid": p_snap_grid,
               "snap_affine": p_snap_affine, "bin": p_bin, "axis": p_axis, "rws": p_rws, "from_pts": p_from_pts,
-              "poly2d": p_poly2d}
+              "poly2d": p_poly2d, "norm_xy": p_norm_xy}
 
 
 def search(out, tier, kept):
@@ -707,6 +744,20 @@ def search(out, tier, kept):
         npts = rng.choice([3, 4, 7, 20])
         pts = [(0.0, 0.0), (10.0, 0.0), (0.0, 10.0)] + [(rng.uniform(-10, 10), rng.uniform(-10, 10)) for _ in range(npts - 3)]
         run("from_pts", A6, tuple(pts))
+    # regular / symmetric control point layouts (incl. odd grids: a point exactly on the centroid)
+    for rep in range(2 * mult):
+        for name, pts in gcp_layouts(rng):
+            run("norm_xy", pts)
+            coef = [(rng.uniform(-3, 3), rng.uniform(-3, 3)) for _ in range(4)] + [(rng.uniform(-1, 1), rng.uniform(-1, 1)) for _ in range(5)]
+            span = max(max(abs(p[0] - pts[0][0]), abs(p[1] - pts[0][1])) for p in pts) or 1.0
+            # keep the higher-order terms of comparable size over the layout's extent
+            coef = [(cx_ / span ** d, cy_ / span ** d) for (cx_, cy_), d in zip(coef, (0, 1, 1, 2, 2, 2, 3, 3, 4))]
+            A6 = rng.choice([(1.0, 0.0, 0.0, 0.0, 1.0, 0.0), (2.0, 0.0, -5.0, 0.0, 0.5, 3.0), (1.0, 0.25, 7.0, -0.5, 1.0, -2.0)])
+            run("poly2d", tuple(coef), pts, A6)
+            if len(pts) >= 3:
+                B6 = (rng.uniform(0.5, 3) * rng.choice([1, -1]), rng.uniform(-1, 1), rng.uniform(-100, 100),
+                      rng.uniform(-1, 1), rng.uniform(0.5, 3) * rng.choice([1, -1]), rng.uniform(-100, 100))
+                run("from_pts", B6, pts)
     for _ in range(40 * mult):
         n = rng.choice([3, 4, 6, 9, 16, 25])
         k = math.isqrt(n - 1) + 1
